@@ -222,9 +222,10 @@ CLAIMED["C09"] = {
 }
 CLAIMED["C10"] = {
     "text": "Theorems: union / intersection / difference point-wise, product form of the intersection, time-fold and space-fold semantics (the code's range reading equals the instant reading "
-            "for valid operands), half-open lookup incl. the shared-boundary case, what validFlatB rejects. The Ranges2D algebra, both folds and both lookups of the real code are compared with "
-            "them on the grid. Two defects repaired (closed time range + unreachable!() in contains; inverted comparator in RangeMOC2::contains_val); one open finding (merge emits "
-            "zero-length / unfused time ranges).",
+            "for valid operands), half-open lookup incl. the shared-boundary case, what validFlatB rejects; code-level models of the two folds (tfold_ranges: filter + union reduction is canonical, covers exactly "
+            "the spec and is independent of the order of the parallel reduction; sfold_ranges: filter + new_from_sorted). The Ranges2D algebra, both folds (grid bits AND the returned ranges) and both "
+            "lookups of the real code are compared with them. Three defects repaired (closed time range + unreachable!() in contains; inverted comparator in RangeMOC2::contains_val; "
+            "Ranges2D::merge emitting zero-length / unfused time ranges).",
     "design_ref": "DESIGN.md §4 C10, §10", "note": _ST_NOTE,
     "technique": "Lean 4 proof on the specification + point-wise correspondence",
 }
